@@ -165,6 +165,114 @@ def table_job(args):
             "errors": [], "sigshapes": [(wa, sa), (wb, sb)], "envs": envs}
 
 
+def derived_job(args):
+    """derived operators (abs, constant shifts/rotates, replicate, matches, Mux, Array, subscripts) applied to
+    random operands through the public API; the Lean Spec gives their meaning on the operands' exact values"""
+    seed, n_cases, n_env = args
+    from amaranth.hdl import Mux, Array, Value
+    from . import gen_expr
+    rng = random.Random(seed)
+    sigs = gen_expr.make_signals(rng, rng.randint(2, 5), 6)
+    g = gen_expr.Gen(rng, sigs, maxw=6)
+    sigidx = {id(s): i for i, s in enumerate(sigs)}
+    ctx = ser_ctx([s.shape() for s in sigs])
+    envs = [[gen_expr.rand_value(rng, s.shape()) for s in sigs] for _ in range(n_env)]
+    envtxt = " ".join(ser_env(e) for e in envs)
+    cases, exprs_, hist = [], [], {}
+
+    def upat(p):
+        return '"' + "".join(p.split()) + '"' if isinstance(p, str) else f"(i {int(p)})"
+    for _ in range(n_cases):
+        a = Value.cast(g.expr(rng.randint(0, 2)))
+        n = len(a)
+        kind = rng.choice(["abs", "shl", "shr", "rol", "ror", "rep", "matches", "matches", "mux", "array", "index", "slicestep"])
+        ops = [a]
+        try:
+            if kind == "abs":
+                e, op = abs(a), "(abs)"
+            elif kind == "shl":
+                k = rng.randint(-n - 1, 5); e, op = a.shift_left(k), f"(shl {k})"
+            elif kind == "shr":
+                k = rng.randint(-4, n + 2); e, op = a.shift_right(k), f"(shr {k})"
+            elif kind == "rol":
+                k = rng.randint(-2 * n - 1, 2 * n + 1); e, op = a.rotate_left(k), f"(rol {k})"
+            elif kind == "ror":
+                k = rng.randint(-2 * n - 1, 2 * n + 1); e, op = a.rotate_right(k), f"(ror {k})"
+            elif kind == "rep":
+                k = rng.randint(0, 3); e, op = a.replicate(k), f"(rep {k})"
+            elif kind == "matches":
+                pats = []
+                for _p in range(rng.randint(0, 3)):
+                    r = rng.random()
+                    if r < 0.45:
+                        pats.append("".join(rng.choice("01") for _b in range(n)))        # fully specified
+                    else:
+                        pats.append(gen_expr.rand_pattern(rng, n))
+                e, op = a.matches(*pats), "(matches " + " ".join(upat(p) for p in pats) + ")"
+            elif kind == "mux":
+                b, c = Value.cast(g.expr(rng.randint(0, 2))), Value.cast(g.expr(rng.randint(0, 2)))
+                sel = Value.cast(g.expr(rng.randint(0, 1)))
+                e, op, ops = Mux(sel, b, c), "(mux)", [sel, b, c]
+            elif kind == "array":
+                elems = [Value.cast(g.expr(rng.randint(0, 2))) for _e in range(rng.randint(1, 4))]
+                idx = g.small_unsigned(1, 2)
+                e, op, ops = Value.cast(Array(elems)[idx]), "(array)", [idx] + elems
+            elif kind == "index":
+                if n == 0:
+                    continue
+                k = rng.randint(-n, n - 1); e, op = a[k], f"(index {k})"
+            else:
+                sl = slice(rng.choice([None, rng.randint(-n - 1, n + 1)]), rng.choice([None, rng.randint(-n - 1, n + 1)]),
+                           rng.choice([None, 1, 2, 3, -1, -2]))
+                st, sp, stp = sl.indices(n)
+                e, op = a[sl], f"(slicestep {st} {sp} {stp})"
+                e = Value.cast(e)
+        except Exception as ex:
+            hist["construct:" + errkind(ex)] = hist.get("construct:" + errkind(ex), 0) + 1
+            continue
+        if len(e) > 400:
+            continue
+        hist[kind] = hist.get(kind, 0) + 1
+        exprs_.append(e)
+        cases.append({"req": f"(derived {op} {ctx} (operands {' '.join(ser_value(o, sigidx) for o in ops)}) {envtxt})",
+                      "repr": f"{kind} {op} on {[repr(o)[:120] for o in ops]}", "shape": (len(e), e.shape().signed)})
+    sims = sim_exprs(sigs, exprs_, envs)
+    return {"seed": seed, "cases": cases, "sims": sims, "envs": envs, "hist": hist,
+            "sigshapes": [(len(s), s.shape().signed) for s in sigs]}
+
+
+def judge_derived(chk, job, path, resps):
+    pos = 0 if path == "circuit" else 1
+    for c, sim, resp in zip(job["cases"], job["sims"], resps):
+        base = {"request": c["req"], "repr": c["repr"], "sigshapes": job["sigshapes"], "job_seed": job["seed"]}
+        if not resp.startswith("derived "):
+            chk.not_shown("driver could not evaluate a derived operator", dict(base, response=resp))
+            continue
+        if resp.strip() == "derived none":
+            chk.hist("derived_out_of_spec", 1)        # e.g. out-of-range array index: not covered by the property
+            continue
+        parts = resp.split(" ; ")
+        head = parts[0].split()
+        shape = (int(head[1]), head[2] == "s")
+        vals = parts[1:]
+        chk.count(len(vals))
+        chk.distinct(c["req"], len(set(vals)) > 1)
+        if shape != tuple(c["shape"]):
+            chk.violation(f"shape of {c['repr']} is {c['shape']}, the documented shape is {shape}",
+                          dict(base, kind="derived-shape", impl=c["shape"], spec=shape, classes=[]))
+            continue
+        if isinstance(sim, tuple):
+            chk.violation(f"simulation of {c['repr']} raises {sim[1]}", dict(base, kind="derived-raises", error=sim[1:3], classes=[]))
+            continue
+        for j, v in enumerate(vals):
+            if v == "none":
+                continue
+            if sim[j][pos] is not None and sim[j][pos] != int(v):
+                chk.violation(f"{path} value of {c['repr']} with inputs {job['envs'][j]} is {sim[j][pos]}, Python semantics give {v}",
+                              dict(base, kind="derived-value", env=job["envs"][j], impl=sim[j][pos], spec=int(v), classes=[]))
+                break
+
+
 def classify_expr(req):
     """structural classes of a request, used to match known findings"""
     classes = set()
@@ -263,6 +371,13 @@ def campaign(chk, path):
         for _ in range(njobs):
             args.append((rng.getrandbits(48), n_expr, depth, maxw_, n_env, wide))
     run_jobs(chk, random_job, args, path)
+    # derived operators against their Python meaning
+    dargs = [(rng.getrandbits(48), 40, 6) for _ in range(40 if tier == "quick" else 600)]
+    with ProcessPoolExecutor(max_workers=min(16, os.cpu_count() or 4)) as ex:
+        for job in ex.map(derived_job, dargs, chunksize=2):
+            for k, v in job["hist"].items():
+                chk.hist("derived_operators", k, v)
+            judge_derived(chk, job, path, chk.driver.ask([c["req"] for c in job["cases"]]))
     chk.cov["rule"] = (
         "exhaustive: every operator/derived operator over every pair of operand shapes of width 0.."
         f"{maxw} with all value pairs; random: type-directed expressions (depth<=6, widths<=70) with corner-biased "
